@@ -120,7 +120,7 @@ pub struct Case {
     pub parallel: bool,
 }
 
-const REAL_INSTANCES: [(usize, f64, f64, RealFn); 8] = [
+const REAL_INSTANCES: [(usize, f64, f64, RealFn); 9] = [
     (1, -1.0, 1.0, RealFn::Sphere),
     (2, -5.12, 5.12, RealFn::Rastrigin),
     (3, 0.0, 10.0, RealFn::ShiftedSphere),
@@ -129,6 +129,8 @@ const REAL_INSTANCES: [(usize, f64, f64, RealFn); 8] = [
     (4, -5.12, 5.12, RealFn::Sphere),
     (2, -2.0, 2.0, RealFn::InfPart),
     (3, 1.0e3, 1.0e3 + 1.0, RealFn::Sphere),
+    // every solution infeasible (+inf): everything ties, nothing ever improves
+    (2, -1.0, 1.0, RealFn::AllInf),
 ];
 const BIT_INSTANCES: [(usize, BitFn); 4] = [(1, BitFn::OneMax), (4, BitFn::Trap), (16, BitFn::OneMax), (7, BitFn::Trap)];
 const PERM_DIMS: [usize; 3] = [3, 5, 8];
@@ -145,7 +147,7 @@ pub fn real_instance_desc(i: usize) -> String {
 }
 /// Instances on which objective values are always finite (IWO documents that it needs them).
 pub fn real_instance_is_finite(i: usize) -> bool {
-    REAL_INSTANCES[i % REAL_INSTANCES.len()].3 != RealFn::InfPart
+    !matches!(REAL_INSTANCES[i % REAL_INSTANCES.len()].3, RealFn::InfPart | RealFn::AllInf)
 }
 
 fn cond<P: KnownOptimumProblem>(n: u32, with_optimum: bool) -> Box<dyn Condition<P>> {
@@ -211,7 +213,9 @@ pub fn dispatch<V: TemplateVisitor>(case: &Case, v: &mut V, on_ctor_error: &mut 
             };
             let crossover = match k {
                 0 => recombination::UniformCrossover::new_insert_both(0.8),
-                1 => recombination::NPointCrossover::new(1, 1.0, false),
+                // (a one-point crossover needs at least two genes)
+                1 if p.domains.len() >= 2 => recombination::NPointCrossover::new(1, 1.0, false),
+                1 => recombination::UniformCrossover::new(1.0, false),
                 2 => recombination::ArithmeticCrossover::new_insert_both(0.5),
                 _ => recombination::UniformCrossover::new_insert_both(0.0),
             };
